@@ -148,7 +148,22 @@ def counters(ctx):
                           "erroneous beats is counted" % (kind, what, edge_, kind), l.loc)
                 continue
             masking = sorted(k_ for k_ in extra if other_src in k_)
-            benign_ = sorted(k_ for k_ in extra if k_ not in masking and k_.lstrip("~").rsplit(".", 1)[-1] in ("valid", "ready"))
+            # handshake qualifiers ("count the word once, when it is transferred") are sound only where the flags and the handshake belong to the same pipeline
+            # stage: the decoders' flags are combinational from the decoder INPUT word, so a handshake of the user port is aligned with them only if no register
+            # sits between (the reader's source side is not bufferized), and only as a complete valid & ready pair of one endpoint
+            hs = sorted(k_ for k_ in extra if k_ not in masking and k_.lstrip("~").rsplit(".", 1)[-1] in ("valid", "ready"))
+            wr_ = [w_ for w_ in (rd[0].meta.get("wrappers", []) if rd else []) if w_[0] == "BufferizeEndpoints"]
+            src_buffered = any("source" in str(a_) for w_ in wr_ for a_ in w_[1])
+            eps_ = {}
+            for k_ in hs:
+                eps_.setdefault(k_.rsplit(".", 1)[0], set()).add(k_.rsplit(".", 1)[1])
+            user_side = [e_ for e_ in eps_ if e_.startswith("port_from.")]
+            if user_side and src_buffered:
+                ob.refute("%s-%s-masked" % (kind, what), "%s %s additionally requires %s of the user port, but the decoded word passes an output register first "
+                          "(BufferizeEndpoints on the reader's source): a word that moves into that register while the user is not ready is never counted" %
+                          (kind, what, hs), l.loc)
+                continue
+            benign_ = sorted(k_ for k_ in hs if eps_[k_.rsplit(".", 1)[0]] == {"valid", "ready"})
             rest = sorted(set(extra) - set(masking) - set(benign_))
             if masking:
                 ob.refute("%s-%s-masked" % (kind, what), "%s %s additionally requires %s: a beat in which another lane reports the other kind of error is "
